@@ -508,10 +508,75 @@ def check_dup(ctx, case):
 
 
 def check_case(ctx, case):
-    if case.get('kind') == 'dup':
+    if 'nullcase' in case:
+        check_nullcase(ctx, case['nullcase'])
+    elif case.get('kind') == 'dup':
         check_dup(ctx, case)
     else:
         check_prog(ctx, case)
+
+
+
+# ---- entries whose value is null (the main family uses unique integers as values; a null value must not make a key vanish)
+NULLFAM_CLASSES = ['len-1in', 'num-7', 'str-a', 'color-red', 'bool-true', 'list-sp-12', 'time-1s', 'str-bc']
+
+
+def gen_nullcase(rng):
+    names = rng.sample(NULLFAM_CLASSES, rng.randint(2, 4))
+    how = rng.choice(['literal', 'set', 'merge'])
+    nulls = [rng.random() < 0.6 for _ in names]
+    if not any(nulls):
+        nulls[0] = True
+    return {'names': names, 'nulls': nulls, 'how': how, 'reps': [rng.randrange(6) for _ in names], 'probe': [rng.randrange(6) for _ in names],
+            'remove': rng.randrange(len(names))}
+
+
+def check_nullcase(ctx, case):
+    names, nulls = case['names'], case['nulls']
+    def rep(c, k):
+        m = CLASSES[c][1]
+        t = m[k % len(m)]
+        return t if re.match(r'^[\w.#%-]+$|^"[^"]*"$|^\'[^\']*\'$|^[\w.-]+\([^()]*\)$', t) else '(%s)' % t
+    ents = [(rep(c, k), 'null' if nl else str(10 + i)) for i, (c, k, nl) in enumerate(zip(names, case['reps'], nulls))]
+    if case['how'] == 'literal':
+        m = '(%s)' % ', '.join('%s: %s' % e for e in ents)
+    elif case['how'] == 'set':
+        m = '()'
+        for k, v in ents:
+            m = 'map.set(%s, %s, %s)' % (m, k, v)
+    else:
+        m = 'map.merge((%s: %s), (%s))' % (ents[0][0], ents[0][1], ', '.join('%s: %s' % e for e in ents[1:])) if len(ents) > 1 else '(%s: %s)' % ents[0]
+    exprs = ['list.length(map.keys(%s))' % m]
+    for c, k in zip(names, case['probe']):
+        exprs.append('map.has-key(%s, %s)' % (m, rep(c, k)))
+        exprs.append('meta.inspect(map.get(%s, %s))' % (m, rep(c, k)))
+    gone = rep(names[case['remove']], case['probe'][case['remove']])
+    exprs.append('map.has-key(map.remove(%s, %s), %s)' % (m, gone, gone))
+    exprs.append('map-has-key(%s, %s)' % (m, rep(names[0], case['probe'][0])))
+    res = ev.evaluate_many(ctx, exprs, chunk=30)
+    ctx.ran(len(exprs))
+    ctx.nontrivial(('nullfam', m, tuple(case['probe'])))
+    if any(r[0] != 'ok' for r in res):
+        ctx.undecided('null-family-expression-fails', str([r for r in res if r[0] != 'ok'][:1])[:160])
+        return
+    ctx.seen('null_family', case['how'])
+    if res[0][1] != str(len(names)):
+        ctx.violation('null-valued-entry|keys-count-wrong|built-by=%s' % case['how'], {'nullcase': case}, {'map': m, 'keys': res[0][1], 'expected': len(names)})
+        return
+    for i, (c, nl) in enumerate(zip(names, nulls)):
+        has, got = res[1 + 2 * i][1], res[2 + 2 * i][1]
+        want = 'null' if nl else str(10 + i)
+        if has != 'true':
+            ctx.violation('null-valued-entry|has-key-false-for-stored-key|value=%s' % ('null' if nl else 'non-null'), {'nullcase': case}, {'map': m, 'key': rep(c, case['probe'][i])})
+            return
+        if got != want:
+            ctx.violation('null-valued-entry|get-wrong|value=%s' % ('null' if nl else 'non-null'), {'nullcase': case}, {'map': m, 'key': rep(c, case['probe'][i]), 'got': got, 'want': want})
+            return
+    if res[-2][1] != 'false':
+        ctx.violation('null-valued-entry|still-present-after-remove', {'nullcase': case}, {'map': m, 'removed': gone})
+        return
+    if res[-1][1] != 'true':
+        ctx.violation('null-valued-entry|global-map-has-key-false-for-stored-key', {'nullcase': case}, {'map': m})
 
 
 def worker(ctx):
@@ -522,6 +587,7 @@ def worker(ctx):
         check_prog(ctx, case)
         if n == 0:
             ctx.sample({'program': ''.join(stmt_text(i, s) for i, s in enumerate(case['stmts'])), 'case': case}, limit=1)
+        check_nullcase(ctx, gen_nullcase(rng))
         for _ in range(3):
             d = gen_dup(rng)
             check_dup(ctx, d)
